@@ -343,9 +343,7 @@ def build (gl : GlyphList) (db : EncDB) (fm : Metrics) (fd : FontDict) : Font :=
       -- standard-14: built-in metrics by character, explicit Widths laid over them, built-in descriptor
       -- (+ MissingWidth of an explicit one); the built-in descriptor has no FontFile
       { cid2unicode := enc, umap := umap,
-        widthsInt := match fd.widths with
-          | some ws => enumWidths first ws
-          | none => [],
+        widthsInt := enumWidths first (fd.widths.getD []),   -- `if "Widths" in spec:` (no entries otherwise)
         widthsStr := m,
         defaultWidth := descMissingWidth fd.desc,
         hscale := (1 : Rat) / 1000 }
